@@ -1,5 +1,6 @@
 import Tickit.Model.WinTree
 import Tickit.Proof.RectSet
+import Tickit.Proof.RectSetInv
 import Tickit.Props.C06
 /-
   `tickit_window_expose` (`WinTree.expose`): the damage it adds is exactly the exposed area, clipped to the window and
@@ -76,6 +77,7 @@ def ExposedRegion (t : Tree) (fuel : Nat) (id : Id) (e : Option Rect) (L C : Int
 theorem expose_spec : ∀ (fuel : Nat) (t : Tree) (id : Id) (e : Option Rect) (t' : Tree),
     expose t fuel id e = .ok t' → (∀ x ∈ t.root.damage, x.Nonempty) → RootsPositive t →
     t'.wins = t.wins ∧ (∀ x ∈ t'.root.damage, x.Nonempty) ∧
+    (RectSet.Inv t.root.damage → RectSet.Inv t'.root.damage) ∧
     (t' = t ∨ (t'.root.needsExpose = true ∧ t'.root.needsLater = true ∧ t'.root.changes = t.root.changes)) ∧
     ∀ L C, Covered t'.root.damage L C ↔ (Covered t.root.damage L C ∨ ExposedRegion t fuel id e L C) := by
   intro fuel
@@ -148,7 +150,7 @@ theorem expose_spec : ∀ (fuel : Nat) (t : Tree) (id : Id) (e : Option Rect) (t
         rw [hdq] at h
         simp only [pure, Pure.pure] at h
         cases h
-        refine ⟨rfl, hne, Or.inl rfl, fun L C => ⟨Or.inl, ?_⟩⟩
+        refine ⟨rfl, hne, fun hi => hi, Or.inl rfl, fun L C => ⟨Or.inl, ?_⟩⟩
         rintro (h1 | h2)
         · exact h1
         · obtain ⟨l, c, ⟨d, hd', _⟩, _⟩ := (hreg L C).1 h2
@@ -161,7 +163,7 @@ theorem expose_spec : ∀ (fuel : Nat) (t : Tree) (id : Id) (e : Option Rect) (t
           simp only [hv, pure, Pure.pure] at h
           simp at h
           subst h
-          refine ⟨rfl, hne, Or.inl rfl, fun L C => ⟨Or.inl, ?_⟩⟩
+          refine ⟨rfl, hne, fun hi => hi, Or.inl rfl, fun L C => ⟨Or.inl, ?_⟩⟩
           rintro (h1 | h2)
           · exact h1
           · obtain ⟨l, c, _, hv', _⟩ := (hreg L C).1 h2
@@ -177,7 +179,7 @@ theorem expose_spec : ∀ (fuel : Nat) (t : Tree) (id : Id) (e : Option Rect) (t
               simp only [pure, Pure.pure] at h
               simp at h
               subst h
-              refine ⟨rfl, hne, Or.inl rfl, fun L C => ⟨Or.inl, ?_⟩⟩
+              refine ⟨rfl, hne, fun hi => hi, Or.inl rfl, fun L C => ⟨Or.inl, ?_⟩⟩
               rintro (h1 | h2)
               · exact h1
               · obtain ⟨l, c, _, _, hrest⟩ := (hreg L C).1 h2
@@ -187,8 +189,8 @@ theorem expose_spec : ∀ (fuel : Nat) (t : Tree) (id : Id) (e : Option Rect) (t
             | some p =>
               rw [hp] at h
               simp at h
-              obtain ⟨hwins, hne', hfl, hcov⟩ := ih t p _ t' h hne hpos
-              refine ⟨hwins, hne', hfl, fun L C => ?_⟩
+              obtain ⟨hwins, hne', hdi, hfl, hcov⟩ := ih t p _ t' h hne hpos
+              refine ⟨hwins, hne', hdi, hfl, fun L C => ?_⟩
               rw [hcov L C, hreg L C]
               apply or_congr Iff.rfl
               unfold ExposedRegion
@@ -246,7 +248,7 @@ theorem expose_spec : ∀ (fuel : Nat) (t : Tree) (id : Id) (e : Option Rect) (t
                 simp only [pure, Pure.pure] at h
                 simp at h
                 subst h
-                refine ⟨rfl, hne, Or.inl rfl, fun L C => ⟨Or.inl, ?_⟩⟩
+                refine ⟨rfl, hne, fun hi => hi, Or.inl rfl, fun L C => ⟨Or.inl, ?_⟩⟩
                 rintro (h1 | h2)
                 · exact h1
                 · exact RectSet.contains_sound rsFuel _ _ hc hdne L C ((hroot L C).1 h2)
@@ -260,7 +262,8 @@ theorem expose_spec : ∀ (fuel : Nat) (t : Tree) (id : Id) (e : Option Rect) (t
                   simp at h
                   subst h
                   obtain ⟨hne', hcov⟩ := RectSet.add_region ha hdne hne
-                  refine ⟨rfl, hne', Or.inr ⟨rfl, rfl, rfl⟩, fun L C => ?_⟩
+                  refine ⟨rfl, hne', fun hi => (RectSet.inv_iff _).2 (RectSet.add_invS ha hdne ((RectSet.inv_iff _).1 hi)),
+                    Or.inr ⟨rfl, rfl, rfl⟩, fun L C => ?_⟩
                   simp only
                   rw [hcov L C, hroot L C]
 
